@@ -200,6 +200,9 @@ type recStat struct {
 }
 
 type recStep struct {
+	inst     int           // identity of the recorder instance (= branch of the run)
+	prev     plumbing.Hash // the commit this instance consumed before
+	hasPrev  bool
 	hash     plumbing.Hash
 	nparents int
 	isMerge  bool
@@ -210,9 +213,21 @@ type recStep struct {
 	stats    []recStat
 }
 
+// recShared is the log all instances of the recorder write to, in execution order.
+type recShared struct {
+	steps []recStep
+	next  int
+}
+
+// recorder is forked by copy: every branch of the run has its own instance, which knows its identity and
+// the commit it consumed last (= the commit the next one is replayed on).  The executed replay sequence
+// is therefore observed from inside the run, not recomputed with a second planner call.
 type recorder struct {
 	hercules.NoopMerger
-	steps []recStep
+	sh     *recShared
+	id     int
+	last   plumbing.Hash
+	hasOne bool
 }
 
 func (r *recorder) Name() string       { return "VerifC12Recorder" }
@@ -223,8 +238,18 @@ func (r *recorder) Requires() []string {
 }
 func (r *recorder) ListConfigurationOptions() []hercules.ConfigurationOption { return nil }
 func (r *recorder) Configure(facts map[string]interface{}) error             { return nil }
-func (r *recorder) Initialize(*git.Repository) error                         { r.steps = nil; return nil }
-func (r *recorder) Fork(n int) []hercules.PipelineItem                       { return hercules.ForkSamePipelineItem(r, n) }
+func (r *recorder) Initialize(*git.Repository) error {
+	r.sh.steps, r.sh.next, r.id, r.hasOne = nil, 1, 0, false
+	return nil
+}
+func (r *recorder) Fork(n int) []hercules.PipelineItem {
+	res := make([]hercules.PipelineItem, n)
+	for i := range res {
+		res[i] = &recorder{sh: r.sh, id: r.sh.next, last: r.last, hasOne: r.hasOne}
+		r.sh.next++
+	}
+	return res
+}
 
 func opCode(t diffmatchpatch.Operation) int {
 	switch t {
@@ -240,7 +265,7 @@ func opCode(t diffmatchpatch.Operation) int {
 
 func (r *recorder) Consume(deps map[string]interface{}) (map[string]interface{}, error) {
 	commit := deps[api.DependencyCommit].(*object.Commit)
-	st := recStep{hash: commit.Hash, nparents: commit.NumParents(), isMerge: deps[api.DependencyIsMerge].(bool),
+	st := recStep{inst: r.id, prev: r.last, hasPrev: r.hasOne, hash: commit.Hash, nparents: commit.NumParents(), isMerge: deps[api.DependencyIsMerge].(bool),
 		index: deps[api.DependencyIndex].(int), author: deps[api.DependencyAuthor].(int), tick: deps[api.DependencyTick].(int)}
 	changes := deps[api.DependencyTreeChanges].(object.Changes)
 	cache := deps[api.DependencyBlobCache].(map[plumbing.Hash]*api.CachedBlob)
@@ -300,7 +325,8 @@ func (r *recorder) Consume(deps map[string]interface{}) (map[string]interface{},
 		}
 		return st.stats[i].side < st.stats[j].side
 	})
-	r.steps = append(r.steps, st)
+	r.sh.steps = append(r.sh.steps, st)
+	r.last, r.hasOne = commit.Hash, true
 	return map[string]interface{}{}, nil
 }
 
@@ -428,7 +454,7 @@ func runPipe(c *Config, kind string, cec, ren bool, cs []commitIn) {
 	langs.id("")
 
 	var obs []Sx
-	rec := &recorder{}
+	rec := &recorder{sh: &recShared{}}
 	var devsRes leaves.DevsResult
 	var commitsRes leaves.CommitsResult
 	var itemNames []string
@@ -470,36 +496,19 @@ func runPipe(c *Config, kind string, cec, ren bool, cs []commitIn) {
 		return
 	}
 
-	// the plan, and the commit each branch holds (for the declared truth)
+	// the plan of a separate planner call, for information only (the planner is not deterministic across calls)
 	plan := verifapi.PrepareRunPlan(commits, 0)
 	var planSx []Sx
-	last := map[int]int{}
-	type on struct{ c, parent int }
-	var replays []on
 	for _, a := range plan {
 		switch a.Action {
 		case verifapi.ActionCommit:
-			ci := cidx[a.Commit.Hash]
-			b := a.Items[0]
-			planSx = append(planSx, T("c", I(ci), I(b)))
-			par, ok := last[b]
-			if !ok {
-				par = -1
-			}
-			replays = append(replays, on{ci, par})
-			last[b] = ci
+			planSx = append(planSx, T("c", I(cidx[a.Commit.Hash]), I(a.Items[0])))
 		case verifapi.ActionFork:
 			planSx = append(planSx, T("f", Ints(a.Items).List...))
-			if src, ok := last[a.Items[0]]; ok {
-				for _, b := range a.Items[1:] {
-					last[b] = src
-				}
-			}
 		case verifapi.ActionMerge:
 			planSx = append(planSx, T("m", Ints(a.Items).List...))
 		case verifapi.ActionEmerge:
 			planSx = append(planSx, T("e", Ints(a.Items).List...))
-			delete(last, a.Items[0])
 		case verifapi.ActionDelete:
 			planSx = append(planSx, T("d", Ints(a.Items).List...))
 		default:
@@ -507,9 +516,15 @@ func runPipe(c *Config, kind string, cec, ren bool, cs []commitIn) {
 		}
 	}
 	obs = append(obs, T("plan", planSx...))
+	// declared truth of every executed replay step: the commit against the commit its branch held before
 	var truth []Sx
-	for _, r := range replays {
-		truth = append(truth, T("on", append([]Sx{I(r.c), I(r.parent)}, truthDiff(specs, r.parent, r.c, names)...)...))
+	for _, st := range rec.sh.steps {
+		par := -1
+		if st.hasPrev {
+			par = cidx[st.prev]
+		}
+		ci := cidx[st.hash]
+		truth = append(truth, T("on", append([]Sx{I(ci), I(par)}, truthDiff(specs, par, ci, names)...)...))
 	}
 	obs = append(obs, T("truth", truth...))
 	var pipeline []Sx
@@ -520,7 +535,7 @@ func runPipe(c *Config, kind string, cec, ren bool, cs []commitIn) {
 
 	// the replay steps as the items saw them
 	var steps []Sx
-	for _, s := range rec.steps {
+	for _, s := range rec.sh.steps {
 		var chs []Sx
 		for _, ch := range s.changes {
 			chs = append(chs, changeSx(ch, names, langs))
@@ -529,7 +544,7 @@ func runPipe(c *Config, kind string, cec, ren bool, cs []commitIn) {
 		for _, x := range s.stats {
 			sts = append(sts, T("k", I(x.side), I(names.id(x.name)), I(langs.id(x.lang)), I(x.a), I(x.r), I(x.c)))
 		}
-		steps = append(steps, T("s", I(cidx[s.hash]), I(s.nparents), B(s.isMerge), I(s.author), I(s.tick), I(s.index), T("ch", chs...), T("st", sts...)))
+		steps = append(steps, T("s", I(cidx[s.hash]), I(s.nparents), B(s.isMerge), I(s.author), I(s.tick), I(s.index), T("ch", chs...), T("st", sts...), I(s.inst)))
 	}
 	obs = append(obs, T("steps", steps...))
 
@@ -839,6 +854,61 @@ func exhaustiveScripts(c *Config, maxLen int, counts []int, chunk int) {
 	flush()
 }
 
+// exhaustiveDags enumerates every history of n commits in which commit i picks any set of at most three
+// earlier commits as parents (none = a further root) and either repeats the tree of its first parent
+// (empty tree for a root) or has content of its own; both settings of ConsiderEmptyCommits.
+func exhaustiveDags(c *Config, n int) {
+	var subsets func(i int) [][]int
+	subsets = func(i int) [][]int {
+		var res [][]int
+		for m := 0; m < 1<<uint(i); m++ {
+			var ps []int
+			for b := 0; b < i; b++ {
+				if m&(1<<uint(b)) != 0 {
+					ps = append(ps, b)
+				}
+			}
+			if len(ps) <= 3 {
+				res = append(res, ps)
+			}
+		}
+		return res
+	}
+	parents := make([][]int, n)
+	var rec func(i int)
+	rec = func(i int) {
+		if i == n {
+			for bits := 0; bits < 1<<uint(n); bits++ {
+				cs := make([]commitIn, n)
+				for j := 0; j < n; j++ {
+					cs[j] = commitIn{ID: j, Parents: append([]int{}, parents[j]...), Author: j % 2, Tick: j / 2}
+					if bits&(1<<uint(j)) != 0 {
+						var sb strings.Builder
+						for l := 0; l <= j; l++ {
+							fmt.Fprintf(&sb, "x%d-%d\n", j, l%2)
+						}
+						cs[j].Files = []fileIn{{"a.go", []byte(sb.String())}}
+						if j%3 == 2 {
+							cs[j].Files = append(cs[j].Files, fileIn{"b.py", []byte(fmt.Sprintf("y%d\n", j))})
+						}
+					} else if len(parents[j]) > 0 {
+						cs[j].Files = append([]fileIn{}, cs[parents[j][0]].Files...)
+					}
+				}
+				for _, cec := range []bool{false, true} {
+					runPipe(c, fmt.Sprintf("dags-exhaustive-%d", n), cec, true, cs)
+				}
+			}
+			return
+		}
+		for _, ps := range subsets(i) {
+			parents[i] = ps
+			rec(i + 1)
+		}
+	}
+	rec(0)
+}
+
 func genPipe(c *Config, kind string) []commitIn {
 	switch kind {
 	case "hist", "hist-single":
@@ -906,19 +976,25 @@ func main() {
 			exhaustiveScripts(c, 4, []int{1, 2, 3}, 64)
 			exhaustiveScripts(c, 3, []int{0, 1, 2, 5}, 64)
 		}
-		for i := c.Count(1500, 30000); i > 0; i-- {
+		for i := c.Count(4000, 60000); i > 0; i-- {
 			runDirect(c, "direct-arbitrary", c.Rng.Intn(10) == 0, genDirect(c, false))
 		}
-		for i := c.Count(1500, 30000); i > 0; i-- {
+		for i := c.Count(4000, 60000); i > 0; i-- {
 			runDirect(c, "direct-canonical", c.Rng.Intn(10) == 0, genDirect(c, true))
 		}
 	}
 	// 2. real pipeline runs
 	if want("pipe") {
+		for n := 1; n <= 4; n++ {
+			exhaustiveDags(c, n)
+		}
+		if c.Thorough() {
+			exhaustiveDags(c, 5)
+		}
 		for _, k := range []struct {
 			kind string
 			q, t int
-		}{{"hist", 500, 8000}, {"hist-single", 300, 5000}, {"empties", 500, 8000}, {"linear", 400, 6000}} {
+		}{{"hist", 1200, 12000}, {"hist-single", 800, 8000}, {"empties", 1200, 12000}, {"linear", 1000, 10000}} {
 			for i := c.Count(k.q, k.t); i > 0; i-- {
 				cs := genPipe(c, k.kind)
 				cec := c.Rng.Intn(2) == 0
